@@ -182,6 +182,55 @@ take_err_harness!(c19_take_err_evalblock, ErrorKind::EvalBlock, io::ErrorKind::W
 take_err_harness!(c19_take_err_invalidop, ErrorKind::InvalidOperation, io::ErrorKind::Other); // tier=thorough cap=600
 // @verif-end
 
+macro_rules! sink_escape_harness {
+    ($name:ident, $short:expr, $kind:expr) => {
+        #[kani::proof]
+        #[kani::unwind(7)]
+        fn $name() {
+            // one escaped emission of the unsafe string "a<" (HtmlEscape writes the plain chunk, the entity and
+            // the rest as separate write calls) into a sink that fails at its k-th call
+            let fail_at: usize = kani::any();
+            kani::assume(fail_at <= 3);
+            let mut w = WriteWrapper { w: Sink::new(fail_at, 0, $kind, $short), err: None };
+            let expect: &[u8] = b"a&lt;";
+            let v = Value::from("a<");
+            let failed_op;
+            {
+                let mut out = Output::new(&mut w);
+                failed_op = crate::utils::write_escaped(&mut out, AutoEscape::Html, &v).is_err();
+                core::mem::forget(out);
+            }
+            assert!(w.w.len <= expect.len());
+            let mut i = 0;
+            while i < 5 {
+                if i < w.w.len {
+                    assert!(w.w.buf[i] == expect[i]);
+                }
+                i += 1;
+            }
+            // nothing is written after the sink reported a failure
+            assert!(w.w.calls_after_failure == 0);
+            if !failed_op {
+                assert!(w.w.len == expect.len() && !w.w.failed && w.err.is_none());
+            } else {
+                assert!(w.w.failed && w.err.is_some());
+                assert!(w.err.as_ref().unwrap().kind() == $kind);
+            }
+            if w.w.failed {
+                assert!(failed_op);
+            }
+            kani::cover!(failed_op && w.w.len == 1);
+            kani::cover!(!failed_op);
+            core::mem::forget((w, v));
+        }
+    };
+}
+
+// @verif-block props=C19,C02 tier=experimental cap=900 group=core doc=one_HTML-escaped_emission_of_"a<"_through_write_escaped/HtmlEscape_into_a_sink_that_fails_with_the_listed_error_kind_at_its_k-th_write_call_(k<=3_symbolic):_delivered_bytes_are_a_prefix_of_"a&lt;",_no_write_call_follows_the_failure_(the_entity_is_not_written_after_the_plain_chunk_failed),_the_emission_returns_Err_and_the_sink's_error_is_stored
+sink_escape_harness!(c19_sink_escaped_brokenpipe, false, io::ErrorKind::BrokenPipe);
+sink_escape_harness!(c19_sink_escaped_short_other, true, io::ErrorKind::Other); // cap=1800
+// @verif-end
+
 // ------------------------------------------------------------------ C02 / C05: captures
 
 macro_rules! capture_harness {
